@@ -480,7 +480,9 @@ def stream_tool(res: Result, tier: str, driver_ok: bool, ref: list[tuple[str, st
     from kskm.tools import sha2wordlist as tool
 
     r = lib.rng("C17:tool")
-    sizes = [0, 1, 31, 32, 33, 128, 256, 1024, 4096] + ([65536, 1 << 20] if tier == "thorough" else [])
+    # the stand-alone tool has NO size limit (unlike the KSR/SKR loaders): sizes around the buffer / cap values a "bounded read"
+    # would use (64 KiB, the loaders' 1 MiB) are part of every run
+    sizes = [0, 1, 31, 32, 33, 128, 256, 1024, 4096, 65535, 65536, 65537, (1 << 20) - 1, 1 << 20, (1 << 20) + 1, (2 << 20) + 3] + ([(8 << 20) + 1] if tier == "thorough" else [])
     lines = []
     cases = []
     with tempfile.TemporaryDirectory(prefix="kskm_c17_") as d:
@@ -615,7 +617,7 @@ def stream_tool_main(res: Result, tier: str, driver_ok: bool, ref: list[tuple[st
         a, b = r.randbytes(32), r.randbytes(1024)
         pool: dict[str, bytes] = {
             "a.bin": a, "b.bin": b, "empty.bin": b"", "a+b.bin": a + b, "ksr.xml": KSR_FILE.read_bytes(), "skr.xml": SKR_FILE.read_bytes(),
-            "hello.txt": b"hello\n", "block.bin": r.randbytes(64), "with space.bin": r.randbytes(55), "big.bin": r.randbytes(70000 if quick else 1 << 20),
+            "hello.txt": b"hello\n", "block.bin": r.randbytes(64), "with space.bin": r.randbytes(55), "big.bin": r.randbytes((1 << 20) + 4097),
         }
         for name, data in pool.items():
             (Path(d) / name).write_bytes(data)
